@@ -253,7 +253,7 @@ pub fn run(cfg: &Cfg, rep: &mut Report) {
         return;
     }
     let directed = crate::mon::c04::directed_inputs();
-    let n = cfg.n(400, 40_000);
+    let n = cfg.n(800, 40_000);
     let n_valgrind = cfg.n(40, 1_200);
     let have_valgrind = Command::new("valgrind").arg("--version").output().map(|o| o.status.success()).unwrap_or(false);
     if !have_valgrind {
